@@ -19,7 +19,7 @@ RULE = (
     'subtracted from every step, first frame kept).  Non-trivial = at least two species, reference set a strict '
     'subset of the atoms; distinct = SHA-1 of (walk, species, argument form).'
 )
-RULE += ' Added in rounds 6-10: a further drift() query for another reference set on the same trajectory; nearly static crystals with a common drift of 1e-10..1e-8 per frame; collections with repeated names; a non-reference atom with NaN coordinates. Round 12: "none" also spelled as None / empty tuple / empty list / empty string arguments (reference = every atom, or a loud refusal). Round 13: a hop of ~0.4 cell against a reference step of -0.15 (relative step beyond half a cell), examined on the returned object before any representation switch.'
+RULE += ' Added in rounds 6-10: a further drift() query for another reference set on the same trajectory; nearly static crystals with a common drift of 1e-10..1e-8 per frame; collections with repeated names; a non-reference atom with NaN coordinates. Round 12: "none" also spelled as None / empty tuple / empty list / empty string arguments (reference = every atom, or a loud refusal). Round 14: hydrogen atoms given as H / D / T isotopes (symbol H). Round 13: a hop of ~0.4 cell against a reference step of -0.15 (relative step beyond half a cell), examined on the returned object before any representation switch.'
 ASSUMPTIONS = [
     'steps (including the injected drift) stay below 0.45 cell so that minimum-image steps are the true steps',
     'tolerances: residual drift 1e-12, positions 1e-9 (circular)',
@@ -76,6 +76,8 @@ def run_unit(unit, rng, ctx):
         symbols[0] = 'S'
     if rng.uniform() < 0.4 and 'Si' not in symbols and 'S' in symbols:
         symbols[-1 if symbols[-1] != 'S' else 0] = 'Si'
+    if unit['i'] % 6 == 2 and 'H' not in symbols:
+        symbols[int(rng.integers(len(symbols)))] = 'H'
     symbols = list(dict.fromkeys(symbols))
     if len(symbols) < 2:
         symbols = ['S', 'Si']
@@ -95,6 +97,12 @@ def run_unit(unit, rng, ctx):
         ctx.count('slow_drift_cases(steps<=1e-8)')
     species_mode = str(rng.choice(['element', 'species', 'mixed']))
     sp = gen.species_objects(names, rng=rng, mode=species_mode)
+    if 'H' in names:
+        # hydrogen isotopes: deuterium / tritium atoms are species of the symbol 'H' (pymatgen: name 'D', symbol 'H')
+        from pymatgen.core import Element
+
+        sp = [Element(str(rng.choice(['H', 'D', 'T']))) if n_ == 'H' else s_ for n_, s_ in zip(names, sp)]
+        ctx.count('cases_with_hydrogen_isotopes', any(getattr(s_, 'name', 'H') in ('D', 'T') for s_ in sp))
     dt = 1e-15
     meta = {'temperature': float(rng.integers(100, 1000)), 'tag': int(unit['i'])}
 
